@@ -26,8 +26,8 @@ TRUSTED = ["models: Audio/WavModel.v (enc_s/dec_s two's complement little endian
            "times are handed to Coq as the exact rational value of the binary64 time; the generator keeps time*rate >= 0.1 sample away "
            "from a half-integer unless the product is exact (dyadic rates), so float rounding of time*rate cannot change the nearest index"]
 ASSUMPTIONS = ["mono recordings; times >= 0"]
-RATES_DY = [8, 16, 64]
-RATES_DEC = [8000, 16000, 44100]
+RATES_DY = [8, 16, 64, 1, 4096]
+RATES_DEC = [8000, 16000, 44100, 22050, 48000, 96000, 11025, 100, 7]
 
 
 def _samples(rng, w, n):
